@@ -177,6 +177,31 @@ def run_scenario(seed, observe="server", mode="mixed", steps=120, monitors=()):
     sim.fair_phase(max_steps=200, done=lambda: sim.client.conn._handshake_confirmed
                    and sim.server.conn._handshake_confirmed and not sim.pending)
     sid = {sim.client.name: 0, sim.server.name: 1}
+    if mode == "train":
+        # a dense train of ack-eliciting packets: inter-arrival gaps below the receiver's
+        # ack delay (1 ms), lasting 2x-4x the advertised max_ack_delay (25 ms); the receiver
+        # is idle or has data of its own; its datagrams are delivered or all lost; every
+        # timer is fired exactly when get_timer() asks (sub-millisecond clock steps)
+        gap = r.choice([0.0001, 0.0002, 0.0005, 0.0005, 0.0009])
+        duration = MAX_ACK_DELAY * r.choice([2.0, 2.5, 3.0, 4.0])
+        receiver_sends = r.random() < 0.5
+        lose_replies = r.random() < 0.5
+        stuck += advance(sim, 0.05, orc)
+        sim.pending.clear()
+        if receiver_sends:
+            sim.api(ep, "send_stream_data", sid[ep.name], bytes(r.choice([3000, 40000])))
+            sim.transmit(ep)
+        t_end = sim.now + duration
+        while sim.now < t_end and not (ep.terminated or peer.terminated):
+            inject_pn(sim, peer, peer.conn._packet_number + (1 if r.random() < 0.05 else 0))
+            if lose_replies:
+                sim.pending.clear()
+            else:
+                while sim.pending:
+                    sim.deliver(sim.pending.pop(0))
+            stuck += advance(sim, gap, orc)
+        stuck += advance(sim, 0.06, orc)
+        return sim, obs, orc, stuck
     for _ in range(steps):
         if ep.terminated or peer.terminated:
             break
